@@ -248,6 +248,7 @@ class Sess:
         self.neor = 0           # of which End-of-RIB markers (23 / 29 bytes: nothing else this check emits is that short)
         self.established = False
         self.quiet = 0
+        self.calm = 0
         self.seen_written = 0
         self.injected = 0
         self.ended = False
@@ -325,7 +326,8 @@ class Run:
         self.done = False
         self.log = []
         self.stale_seen = 0
-        self.stale_keys = []
+        self.stale_keys = []      # prefixes with a superseded pending entry that was queued since the last reset
+        self.route_epoch = {}     # id(route object handed to ExaBGP) -> number of resets before it was queued
         self.nop = 0
         self.peer = None
         body = S.peer_open_body(asn=PEER_AS, hold=180, families=fams, asn4=True)
@@ -340,9 +342,10 @@ class Run:
         return s
 
     def idle(self, sess):
-        """everything this session had to send is out: End-of-RIB markers written, queue empty, planned operations in"""
-        return (sess.established and sess.neor >= len(self.fams) and not self.nb.rib.outgoing.pending()
-                and sess.injected >= len(self.ops_up[sess.n] if sess.n < len(self.ops_up) else ()))
+        """everything this session had to send is out: at least one whole loop iteration went by, nothing was written
+        during the last one (no generator live), the queue is empty and the planned operations are in.  Deliberately NOT
+        defined through the End-of-RIB markers: whether they were sent is an obligation, not a premise."""
+        return (sess.calm >= 1 and sess.injected >= len(self.ops_up[sess.n] if sess.n < len(self.ops_up) else ()))
 
     def remote(self, sess):
         sess.reads += 1
@@ -363,7 +366,11 @@ class Run:
             return ('eof',)
         wrote = len(sess.written) != sess.seen_written     # a generator may still be live (rate-limited neighbor)
         sess.seen_written = len(sess.written)
-        if self.idle(sess) and not wrote:
+        if sess.reads >= 4 and not wrote and not self.nb.rib.outgoing.pending():
+            sess.calm += 1
+        else:
+            sess.calm = 0
+        if self.idle(sess):
             sess.quiet += 1
         else:
             sess.quiet = 0
@@ -389,7 +396,7 @@ class Run:
                 while sess.injected < len(plan):
                     at, kind = plan[sess.injected][:2]
                     if at == 'idle':
-                        ready = sess.neor >= len(self.fams) and not self.nb.rib.outgoing.pending()
+                        ready = sess.calm >= 1 and not self.nb.rib.outgoing.pending()
                     else:
                         ready = sess.nupd >= at
                     if not ready:
@@ -423,6 +430,7 @@ class Run:
                 ctx.cover('announce-over-existing' if prev['sel'] != sel else 'announce-identical')
             if prev is not None and prev['sel'] is None:
                 ctx.cover('announce-after-withdraw')
+            self.route_epoch[id(route)] = self.epoch
             ok = self.cfg.announce_route(names, route)
             self.intent.op(key, sel, route, phase, self.epoch)
         else:
@@ -612,6 +620,7 @@ def _h_resync(ctx, fams, aro, cuts, n_up, n_down, up_kinds, down_kinds, losses=1
     run = Run(ctx, nb, cfg, pool, fams, plan, ops_up, ops_down, dom)
     for (fam, sel, p), r in zip(configured, routes):
         run.intent.op((fam, p), sel, r, 'config', 0)
+        run.route_epoch[id(r)] = 0
 
     # diagnostic only (names the root cause in a signature, never decides a verdict): superseded pending entries present
     # when a batch is generated for the wire
@@ -622,6 +631,9 @@ def _h_resync(ctx, fams, aro, cuts, n_up, n_down, up_kinds, down_kinds, losses=1
         if not state['reset'] and len(run.sessions) == losses + 1:
             for route in stale_routes(rib):
                 run.stale_seen += 1
+                if run.route_epoch.get(id(route)) != run.epoch:
+                    # queued before the last reset: OutgoingRIB.reset() should have drained it - not the known root cause
+                    continue
                 fam = tuple(int(x) for x in route.nlri.family().afi_safi())
                 run.stale_keys.append((fam, route.nlri._packed[3] if fam == V4 else route.nlri._packed[6]))
         return real_updates(grouped, paths_limit)
@@ -714,8 +726,10 @@ def _h_resync(ctx, fams, aro, cuts, n_up, n_down, up_kinds, down_kinds, losses=1
             missing.append(g)
 
     def why(rows):
-        """signature prefix for a table symptom: the known root cause only when EVERY offending prefix had a superseded
-        pending entry in a batch of the judged session (decided per prefix, so that another defect is still reported)"""
+        """signature prefix for a table symptom: the known root cause (F2: _update_rib leaves the superseded pending
+        announce in its old attribute bucket) only when EVERY offending prefix had, in a batch of the judged session, a
+        superseded pending entry that was queued since the last reset - decided per prefix, so that another defect on
+        the same path, or an entry that survived a reset, is still reported under its own signature"""
         if rows and all(any(same(k, r[0][0]) for k in run.stale_keys) for r in rows):
             return 'stale-pending-entry'
         return mode
